@@ -198,7 +198,7 @@ impl CmXmlParser {
             {
                 min_brightness.text().map_or(0, |e| {
                     let v = e.parse::<f32>().unwrap();
-                    (v * 10000.0) as u16
+                    (v * 10000.0).round() as u16
                 })
             } else {
                 0
